@@ -6,7 +6,7 @@ EmitLine(rec) ==
   Serialize(ToJson(rec) \o "\n", OutFile,
             [format |-> "TXT", charset |-> "UTF-8", openOptions |-> <<"WRITE", "CREATE", "APPEND">>]).exitValue = 0
 GInit == \/ kind = "migrate" /\ MInit /\ path = "" /\ dmg = ""
-         \/ kind = "fault" /\ d \in {x \in Defs : Valid(x) /\ x.tpl # "none" /\ x.lang = "eng" /\ x.rname = "ok" /\ x.cname = "ok" /\ x.wh # "none"}
+         \/ kind = "fault" /\ d \in {x \in Defs : Valid(x) /\ x.tpl # "none" /\ x.lang = "eng" /\ x.rname = "ok" /\ x.cname = "ok" /\ x.wh # "none" /\ x.wht = x.wh}
             /\ target = Latest /\ mid = 0 /\ path \in Paths /\ dmg \in Damage
 GNext == UNCHANGED <<mvars, kind, path, dmg>>
 Emit == EmitLine([kind |-> kind, d |-> d, target |-> target, mid |-> mid, path |-> path, dmg |-> dmg,
